@@ -191,9 +191,112 @@ fn op_node_paint(payload: &str) -> String {
     )
 }
 
+/// (x0, y0, x1, y1) of the non-transparent pixels, or None
+fn painted_extent(pm: &tiny_skia::Pixmap) -> Option<(u32, u32, u32, u32)> {
+    let (w, h) = (pm.width(), pm.height());
+    let d = pm.data();
+    let (mut x0, mut y0, mut x1, mut y1) = (u32::MAX, u32::MAX, 0u32, 0u32);
+    let mut any = false;
+    for y in 0..h {
+        for x in 0..w {
+            if d[((y * w + x) * 4 + 3) as usize] != 0 {
+                any = true;
+                x0 = x0.min(x);
+                y0 = y0.min(y);
+                x1 = x1.max(x + 1);
+                y1 = y1.max(y + 1);
+            }
+        }
+    }
+    if any { Some((x0, y0, x1, y1)) } else { None }
+}
+
+fn ext_json(e: Option<(u32, u32, u32, u32)>) -> String {
+    match e {
+        Some((a, b, c, d)) => format!("[{},{},{},{}]", a, b, c, d),
+        None => "null".to_string(),
+    }
+}
+
+/// cli-export  payload `opts\tdoc\tid\texport_png\tpage_png`
+/// The PNG written by `resvg --export-id ID` must have the size of the node's absolute layer box (to_int_size) and the
+/// pixels of resvg::render_node; the PNG of `--export-id ID --export-area-page` must have the page size and show the
+/// node where the full rendering paints it (placed here by the product of the ancestors' transforms), up to the
+/// integer placement of the CLI (painted extent within 2 px on every side).
+fn op_cli_export(payload: &str) -> String {
+    let f: Vec<&str> = payload.split('\t').collect();
+    if f.len() < 5 {
+        return "{\"error\":\"bad payload\"}".to_string();
+    }
+    let tree = match parse_doc(f[0], f[1]) {
+        Ok(t) => t,
+        Err(e) => return format!("{{\"error\":{}}}", esc(&e)),
+    };
+    let mut items = Vec::new();
+    collect(tree.root(), Transform::identity(), "", &mut items);
+    let it = match items.iter().find(|i| i.node.id() == f[2]) {
+        Some(i) => i,
+        None => return "{\"error\":\"id not found by the harness walk\"}".to_string(),
+    };
+    let node = it.node;
+    let lb = match node.abs_layer_bounding_box() {
+        Some(b) => b,
+        None => return "{\"no_layer_box\":true}".to_string(),
+    };
+    let isz = lb.size().to_int_size();
+    let load = |p: &str| -> Result<tiny_skia::Pixmap, String> {
+        let bytes = std::fs::read(p).map_err(|e| format!("read: {}", e))?;
+        tiny_skia::Pixmap::decode_png(&bytes).map_err(|e| format!("png: {}", e))
+    };
+    let mut out = format!(
+        "{{\"kind\":\"{}\",\"lbbox\":[{},{},{},{}],\"expected_size\":[{},{}]",
+        kind(node), num(lb.x()), num(lb.y()), num(lb.width()), num(lb.height()), isz.width(), isz.height()
+    );
+    match load(f[3]) {
+        Err(e) => out.push_str(&format!(",\"export\":{{\"error\":{}}}", esc(&e))),
+        Ok(pm) => {
+            let mut ndiff = -1i64;
+            if pm.width() == isz.width() && pm.height() == isz.height() {
+                let mut r = tiny_skia::Pixmap::new(isz.width(), isz.height()).unwrap();
+                resvg::render_node(node, Transform::identity(), &mut r.as_mut());
+                ndiff = diff_pixmaps(&pm, &r, 0).0 as i64;
+            }
+            out.push_str(&format!(",\"export\":{{\"size\":[{},{}],\"ndiff_vs_render_node\":{}}}", pm.width(), pm.height(), ndiff));
+        }
+    }
+    let psz = tree.size().to_int_size();
+    match load(f[4]) {
+        Err(e) => out.push_str(&format!(",\"page\":{{\"error\":{}}}", esc(&e))),
+        Ok(pm) => {
+            // reference: the node alone, placed by the product of its ancestors' transforms
+            let parent_ts = match node {
+                usvg::Node::Group(ref g) => g.abs_transform().pre_concat(g.transform().invert().unwrap_or_default()),
+                _ => node.abs_transform(),
+            };
+            let mut refext = None;
+            let mut ok_ref = false;
+            if let Some(inv) = parent_ts.invert() {
+                let t = it.parent_true.pre_concat(inv).pre_translate(lb.x(), lb.y());
+                let mut r = tiny_skia::Pixmap::new(psz.width(), psz.height()).unwrap();
+                if resvg::render_node(node, t, &mut r.as_mut()).is_some() {
+                    refext = painted_extent(&r);
+                    ok_ref = true;
+                }
+            }
+            out.push_str(&format!(
+                ",\"page\":{{\"size\":[{},{}],\"expected_size\":[{},{}],\"extent\":{},\"ref_ok\":{},\"ref_extent\":{}}}",
+                pm.width(), pm.height(), psz.width(), psz.height(), ext_json(painted_extent(&pm)), ok_ref, ext_json(refext)
+            ));
+        }
+    }
+    out.push('}');
+    out
+}
+
 pub fn dispatch(op: &str, _args: &[String]) -> bool {
     match op {
         "node-paint" => run_batch(op_node_paint),
+        "cli-export" => run_batch(op_cli_export),
         _ => return false,
     }
     true
